@@ -201,8 +201,45 @@ func runC01LiveList(c *Ctx, n int, fixed []c01liveItem) {
 		}
 		return true
 	}
+	// flood: an EMPTY uTP TALKREQ followed by count uTP datagrams, then probes: the uTP talk handler must still answer
+	// (a reader goroutine that stopped on the empty datagram lets the handler's queue fill up and the handler block)
+	flood := func(count int) {
+		utpID := string(portalwire.Utp)
+		_, _ = disc.TalkRequest(v.node, utpID, []byte{})
+		status := "alive"
+		misses := 0
+		for k := 0; k < count+3 && misses < 3; k++ {
+			pkt := make([]byte, 20)
+			pkt[0] = 0x01 // ST_DATA, version 1-ish header bytes; content does not matter for the queue
+			pkt[2], pkt[3] = byte(k>>8), byte(k)
+			if _, terr := disc.TalkRequest(v.node, utpID, pkt); terr != nil {
+				misses++
+			} else {
+				misses = 0
+			}
+		}
+		if !v.alive() {
+			status = "dead"
+		} else if misses >= 3 {
+			status = "silent"
+		}
+		c.Count("liveflood_" + status)
+		c.Emit("liveflood utp %d | %s", count, status)
+		if status != "alive" {
+			v.stop()
+			if nv, err := c01spawn(c); err == nil {
+				v = nv
+			} else {
+				panic(err)
+			}
+		}
+	}
 	if fixed != nil {
 		for _, it := range fixed {
+			if it.proto == "utp-flood" {
+				flood(int(it.payload[0])<<8 | int(it.payload[1]))
+				continue
+			}
 			for pi := range protos {
 				if protos[pi].name == it.proto {
 					send(pi, it.payload)
@@ -226,6 +263,7 @@ func runC01LiveList(c *Ctx, n int, fixed []c01liveItem) {
 			send(pi, c01findContent(append([]byte{0x14}, r.Bytes(l)...)))
 		}
 	}
+	flood(1100)
 	for i := 0; i < n; i++ {
 		pi := r.Intn(len(protos))
 		var m []byte
